@@ -76,3 +76,21 @@ Theorem C44_unique_example : forall x y : list R, length x = length y ->
 Proof. exact (@unique_example). Qed.
 Print Assumptions C44_unique_example.
 
+Theorem C44_bilateral_check_spec part A D rhs (pi : list R) :
+  bilateral_check ROps 0 part A D rhs pi = true <->
+  (forall r, In r part -> row_sum ROps part A D pi r = Rget rhs r) /\
+  (forall i, (i < length A)%nat -> ~ In i part -> Rget pi i = 0).
+Proof. exact (bilateral_check_spec part A D rhs pi). Qed.
+Print Assumptions C44_bilateral_check_spec.
+
+Theorem C44_bilateral_certificate_unique part A D rhs (pi pi' : list R) :
+  length pi = length A -> length pi' = length A ->
+  (forall v, length v = length A -> (exists r, In r part /\ Rget v r <> 0) -> 0 < qform part A D v) ->
+  bilateral_check ROps 0 part A D rhs pi = true -> bilateral_check ROps 0 part A D rhs pi' = true -> pi = pi'.
+Proof. exact (bilateral_certificate_unique part A D rhs pi pi'). Qed.
+Print Assumptions C44_bilateral_certificate_unique.
+
+Theorem C44_bilateral_example :
+  bilateral_check ROps 0 [1%nat] [[5; 1]; [1; 2]] [0; 1] [7; 6] [0; 2] = true.
+Proof. exact bilateral_example. Qed.
+Print Assumptions C44_bilateral_example.
